@@ -202,6 +202,10 @@ def run_shard(ctx):
             break
         K = int(rng.integers(1, 41))
         cv = gens.label_vector(rng, ncycles=K, gaps=bool(rng.random() < .7))
+        if rng.random() < .3:
+            cv = cv.astype(gens.pick(rng, [np.int32, np.int16]))
+        if rng.random() < .3:
+            cv, _ = gens.relayout(rng, cv, 'strided')
         sel = rng.random(K) < rng.uniform(.1, .9)
         check(ctx, cv, sel, {'kind': 'maps', 'cycle_vect': cv, 'selection': sel}, 'random')
     idx = 0
